@@ -46,6 +46,9 @@ def jobs(tier):
             if q and shape == "flat2" and (route, prog) in (("content", 2), ("path", 1)):
                 continue
             out.append(("%s.P16384.via-%s.prog%d" % (shape, route, prog), "job", dict(shape=shape, P=16384, K=2, order="reversed", route=route, progress=prog)))
+    from harness import matrix
+    for i, row in matrix.rows(tier):
+        out.append(("matrix." + matrix.label(i, row), "job_matrix", dict(row=row)))
     out.append(("seq.flat2.P16384-then-P65536", "job_seq", dict(P1=16384, P2=65536)))
     out.append(("seq.flat2.P32768-then-P16384", "job_seq", dict(P1=32768, P2=16384)))
     if not q:
@@ -93,6 +96,12 @@ def job(E, shape, P, K, order, route="path", progress=0, _mutants=None):
             E.witnesses.setdefault("empty file", True)
 
 
+def job_matrix(E, row, _mutants=None):
+    from harness import matrix
+    matrix.run(E, "1", row, lambda e, meta, sizes, Pn, shape: orc.oracle_aligned_v1(e, meta["info"], sizes, Pn, shape, "C15.matrix"),
+               "C15.matrix", align=True, _mutants=_mutants)
+
+
 def job_seq(E, P1, P2, _mutants=None):
     """Two aligned creations by one process with different piece lengths: the
     second must still satisfy the property (no buffer or table may be carried over)."""
@@ -138,6 +147,13 @@ def conc_aligned(info, data, P, shape):
 
 
 def replay(params, model, notes, workdir, seed):
+    if "row" in params:
+        from harness import matrix
+        row = params["row"]
+        meta, data, Pn = matrix.replay("1", row, model, workdir, seed, align=True)
+        if isinstance(meta, BaseException):
+            return ["C15.matrix.no-exception: %s: %s" % (type(meta).__name__, meta)]
+        return ["C15.matrix." + b for b in conc_aligned(meta["info"], data, Pn, row["tree"])]
     if "P1" in params:
         shape = "flat2"
         sizes = cr.concrete_sizes(shape, model)
